@@ -41,6 +41,7 @@ class Machine:
             self.regs[k] = v & M64
         self.helpers = helpers or {}
         self.present = {}       # (fd, key) -> bool for 1-byte-key hash maps
+        self.slots = {}         # fd -> [key or None] for other hash maps
         self.tail_registered = lambda idx: False
         self.trace = []
         self.default_byte = 0
@@ -220,6 +221,32 @@ class Machine:
                 self.pc = pc + 1 + (off if t else 0)
                 return None
 
+    def load_hash(self, fd, entries):
+        """initial contents of a hash map: {key bytes: value bytes}"""
+        m = self.maps[fd]
+        if m.key_size == 1:
+            for k, v in entries.items():
+                self.present[(fd, k[0])] = True
+                self.stb(m.base + k[0] * m.value_size, m.value_size,
+                         int.from_bytes(v, "little"))
+            return
+        tab = self.slots.setdefault(fd, [None] * m.slots)
+        for i, (k, v) in enumerate(entries.items()):
+            tab[i] = int.from_bytes(k, "little")
+            self.stb(m.base + i * m.value_size, m.value_size,
+                     int.from_bytes(v, "little"))
+
+    def hash_contents(self, fd):
+        m = self.maps[fd]
+        if m.key_size == 1:
+            return {bytes([k]): bytes(self.ld(m.base + k * m.value_size + j, 1)
+                                      for j in range(m.value_size))
+                    for (f, k), p in self.present.items() if f == fd and p}
+        return {k.to_bytes(m.key_size, "little"):
+                bytes(self.ld(m.base + i * m.value_size + j, 1)
+                      for j in range(m.value_size))
+                for i, k in enumerate(self.slots.get(fd, [])) if k is not None}
+
     def call(self, no):
         r = self.regs
         if no in self.helpers:
@@ -232,6 +259,12 @@ class Machine:
             elif m.kind == "hash" and m.key_size == 1:
                 r0 = m.base + key * m.value_size \
                     if self.present.get((m.fd, key)) else 0
+            elif m.kind == "hash":
+                tab = self.slots.setdefault(m.fd, [None] * m.slots)
+                r0 = 0
+                for i, k in enumerate(tab):
+                    if k == key:
+                        r0 = m.base + i * m.value_size
             else:
                 raise Fault("lookup: map kind not modelled concretely")
         elif no == 2:
@@ -243,6 +276,22 @@ class Machine:
                 self.present[(m.fd, key)] = True
                 self.stb(m.base + key * m.value_size, m.value_size, val)
                 r0 = 0
+            elif m.kind == "hash":
+                tab = self.slots.setdefault(m.fd, [None] * m.slots)
+                flags = self.reg(4) & 3
+                if key in tab:
+                    i = tab.index(key)
+                    r0 = (-17) & M64 if flags == 1 else 0
+                elif flags == 2:
+                    i, r0 = None, (-2) & M64
+                elif None in tab:
+                    i = tab.index(None)
+                    tab[i] = key
+                    r0 = 0
+                else:
+                    i, r0 = None, (-7) & M64
+                if r0 == 0:
+                    self.stb(m.base + i * m.value_size, m.value_size, val)
             else:
                 raise Fault("update: map kind not modelled concretely")
         elif no == 12:
